@@ -392,6 +392,17 @@ def _r3(chk, repo):
                 if m and t.endswith("for _k0 in self._densities]") and any(t2 == f"{nj}._densities={m['lst']}" for t2, _ in S):
                     formB = n
         break
+    if formB is None:
+        # ---- form C: the new list is filled by an explicit loop over ALL factors, appending a conditioned copy of each, unconditionally
+        bc, usedc = unify(["$lst=[]", "for: $d : self._densities", "$lst.append($d(**$kw))", f"{nj}._densities=$lst"], S)
+        if bc is not None:
+            app = usedc[2]
+            lp = getattr(app, "_parent", None)
+            direct = isinstance(lp, ast.For) and not any(isinstance(x, (ast.Continue, ast.Break)) for x in ast.walk(lp))
+            others = [t for t, _ in S if t.startswith(bc["lst"] + ".") and not t.startswith(bc["lst"] + ".append(")] + \
+                     [t for t, _ in S if t.startswith(bc["lst"] + "[")]
+            if direct and not others:
+                formB = app
     if formB is not None:
         chk.ok("C11-R3", inst + "/list-copy", site(repo, cond), f"{nj}._densities is bound to a newly built list")
         chk.ok("C11-R3", inst + "/replace-all", site(repo, cond), "every element of the new list is `factor(**kwargs)` (a conditioned copy) of the corresponding factor")
